@@ -18,7 +18,7 @@ META = dict(
     bounds=dict(
         quick="A: 1-D kernel for all n1,n2 <= 7, all real x1, x2, two_at != 0 (identity with the Obara-Saika recurrence "
               "decided by polynomial normalisation); B: primitive normalisation for every Cartesian power triple with "
-              "l <= 4 and all real exponents > 0; C: Cartesian-to-pure tables l <= 7 against exact algebraic values "
+              "l <= 7 and all real exponents > 0; C: Cartesian-to-pure tables l <= 7 against exact algebraic values "
               "(4 ulp); D1: real compute_overlap on one centre, one one-primitive shell l <= 2 (Cartesian) / l = 2 (pure) with "
               "a symbolic exponent: unit diagonal, symmetry, pure shell orthonormal; D1b: two shells of different type on one "
               "centre at any position (symbolic coordinates; exponents 0.8 / 1.7), single-basis and two-basis form: every "
@@ -28,7 +28,7 @@ META = dict(
               "function): symmetry, the same basis object at two geometries equals an equal copy, transposition under exchange of the bases, invariance under a common translation, "
               "row/column permutation under a change of conventions, zero block exactly when screened; rejection of L1 "
               "normalisation and of a missing / superfluous second geometry",
-        thorough="B for l <= 7, D1 for l <= 3, D2 with d shells and generalized contractions"),
+        thorough="B for l <= 9, D1 for l <= 3, D2 with d shells and generalized contractions"),
     outside=["positive semidefiniteness as a separate obligation (implied by the Gram form)", "floating-point accuracy "
              "of the final numbers", "symbolic exponents together with symbolic distances (exp of products)",
              "screening threshold semantics beyond the branch actually taken"],
@@ -412,7 +412,7 @@ def jobs(tier):
         for n2 in range(8):
             out.append(job("C06", f"kernel[{n1},{n2}]", M, "h_kernel", dict(n1=n1, n2=n2), budget_s=120))
     out.append(job("C06", "kernel[twin]", M, "h_kernel", dict(n1=2, n2=1, twin=True), expect="cex"))
-    for l in range(0, (8 if tier == "thorough" else 5)):
+    for l in range(0, (10 if tier == "thorough" else 8)):
         out.append(job("C06", f"normalisation[l={l}]", M, "h_norm", dict(l=l), budget_s=600, oblige_timeout_ms=60000))
     out.append(job("C06", "normalisation[twin]", M, "h_norm", dict(l=1, twin=True), expect="cex"))
     for l in range(8):
